@@ -340,8 +340,15 @@ class ConcFactory(object):
         if name in self.values:
             a = np.array(self.values[name], dtype={'real': float, 'int': int, 'bool': bool}[dtype]).reshape(shape)
         elif dtype == 'real':
-            a = np.array([self._pick_real(None, None, None, pos, False) for _ in range(int(np.prod(shape)) if shape else 1)],
-                         dtype=float).reshape(shape)
+            vals = [self._pick_real(None, None, None, pos, False) for _ in range(int(np.prod(shape)) if shape else 1)]
+            # boundary coincidences: some elements take exactly the value of a scalar drawn earlier (a grid point that
+            # coincides with sigma or a cut-off is where `>` vs `>=` slips show)
+            scal = [v for v in self.used.values() if isinstance(v, float) and (not pos or v > 0)]
+            if scal:
+                for i in range(len(vals)):
+                    if self.rng.random() < 0.15:
+                        vals[i] = self.rng.choice(scal)
+            a = np.array(vals, dtype=float).reshape(shape)
         elif dtype == 'int':
             a = np.array([self.rng.randint(-5, 5) for _ in range(int(np.prod(shape)))], dtype=int).reshape(shape)
         else:
